@@ -112,6 +112,13 @@ func runC10(c *engine.Ctx) {
 
 	// ---- R18 a close request is not held up behind a mutex somebody keeps while waiting for a peer (shared with C16.R23) ----
 	checkNoWaitUnderLock(c, engine.AnalyzeLocks(c.P), "R18")
+
+	// ---- R19 a re-login is acknowledged only when the session it replaces has released everything (first half of C12.R1) ----
+	c.Rule("R19", "RegisterControl starts the new control only after WaitClosed on the control that ControlManager.Add returned: the identical registrations of a reconnecting client meet no leftovers of its old session")
+	c.Floor(checkStartAfterWait(c), 1)
+
+	// ---- R20 a refused join leaves the group it was refused by alone (shared with C13.R17) ----
+	checkGroupRemovedOnlyWhenEmpty(c, "R20")
 }
 
 // checkQueuedClosureCaptures: a closure that is stored for later execution (appended to a closeFuncs-like slice field)
